@@ -60,7 +60,7 @@ def run_trans(case, owners, expect_reject=None, full_alphabet=True, extra_check=
                 foreign += 1
         for (base, cls), lst in sorted(grouped.items()):
             vios.append(dict(sig="%s:%s" % (cls, base), tags=tags, detail="%d rows/entries; first: %s %s" % (len(lst), lst[0]["origin"], lst[0]["info"])))
-        if extra_check is not None:
+        if extra_check is not None and getattr(res, "nlp", None) is not None:
             vios += extra_check(case, res, tags) or []
     # digest of the real rows' fingerprints: distinct outcomes / non-triviality are measured, not assumed
     if getattr(res, "rows_real", None) is not None:
